@@ -3,10 +3,12 @@
 package vegeta_test
 
 import (
+	"context"
 	"encoding/json"
 	"errors"
 	"fmt"
 	"io"
+	"net"
 	"net/http"
 	"os"
 	"regexp"
@@ -58,7 +60,7 @@ func (c c02Case) String() string {
 	}
 	for _, a := range c.Script {
 		fmt.Fprintf(&b, " %s", a.K)
-		if a.K == "complete" || a.K == "completeerr" || a.K == "stop" || a.K == "sleep" || a.K == "burst" {
+		if a.K == "complete" || a.K == "completeerr" || a.K == "completehead" || a.K == "stop" || a.K == "sleep" || a.K == "burst" {
 			fmt.Fprintf(&b, "(%d)", a.A)
 		}
 	}
@@ -79,8 +81,10 @@ type c02World struct {
 	failNext      bool
 	failedCalls   []int // indices (0-based) of targeter calls that failed
 	badNext       bool
-	badCalls      []int // indices of targeter calls that handed out a target no request can be built from
-	auto          int   // pacer consultations to answer "no wait" at once, without the harness in between
+	badCalls      []int                    // indices of targeter calls that handed out a target no request can be built from
+	auto          int                      // pacer consultations to answer "no wait" at once, without the harness in between
+	errSalt       int                      // which kind of error the targeter fails with
+	tails         map[uint64]chan struct{} // requests whose response arrives in two parts: the body tail waits for this
 	entered       []uint64
 	gates         map[uint64]chan error
 }
@@ -102,6 +106,16 @@ func (w *c02World) Rate(time.Duration) float64 { return 0 }
 
 var errC02Target = errors.New("harness: targeter told to fail")
 
+type c02TimeoutErr struct{}
+
+func (c02TimeoutErr) Error() string   { return "harness: targeter timed out" }
+func (c02TimeoutErr) Timeout() bool   { return true }
+func (c02TimeoutErr) Temporary() bool { return true }
+
+// the targeter's failures come in the kinds a lazy target source produces; whatever the kind, the attack stops
+var c02TargetErrs = []error{errC02Target, context.DeadlineExceeded, os.ErrDeadlineExceeded, c02TimeoutErr{}, io.EOF, io.ErrUnexpectedEOF, vegeta.ErrNoTargets,
+	fmt.Errorf("wrapped: %w", context.DeadlineExceeded), &net.OpError{Op: "read", Net: "tcp", Err: c02TimeoutErr{}}}
+
 func (w *c02World) target(t *vegeta.Target) error {
 	w.mu.Lock()
 	defer w.mu.Unlock()
@@ -110,7 +124,7 @@ func (w *c02World) target(t *vegeta.Target) error {
 	if w.failNext {
 		w.failNext = false
 		w.failedCalls = append(w.failedCalls, idx)
-		return errC02Target
+		return c02TargetErrs[(idx+w.errSalt)%len(c02TargetErrs)]
 	}
 	if w.badNext {
 		// handed out without error, but no request can be built from it
@@ -134,11 +148,39 @@ func (w *c02World) RoundTrip(req *http.Request) (*http.Response, error) {
 	w.gates[seq] = gate
 	w.mu.Unlock()
 	if err := <-gate; err != nil {
-		return nil, err
+		if err != errC02Head {
+			return nil, err
+		}
+		// the response head and the first bytes of the body are there; the rest of the body follows later
+		w.mu.Lock()
+		tail := make(chan struct{})
+		w.tails[seq] = tail
+		w.mu.Unlock()
+		return &http.Response{Status: "200 OK", StatusCode: 200, Proto: "HTTP/1.1", ProtoMajor: 1, ProtoMinor: 1, ContentLength: -1,
+			Header: http.Header{"X-Echo-Seq": []string{strconv.FormatUint(seq, 10)}}, Body: &c02SlowBody{head: []byte("0123456789"), tail: tail}, Request: req}, nil
 	}
 	return &http.Response{Status: "200 OK", StatusCode: 200, Proto: "HTTP/1.1", ProtoMajor: 1, ProtoMinor: 1,
 		Header: http.Header{"X-Echo-Seq": []string{strconv.FormatUint(seq, 10)}}, Body: io.NopCloser(strings.NewReader("ok")), Request: req}, nil
 }
+
+var errC02Head = errors.New("harness: only the head of the response so far")
+
+// c02SlowBody hands out its first bytes at once and reports the end only when the tail has arrived.
+type c02SlowBody struct {
+	head []byte
+	tail chan struct{}
+}
+
+func (b *c02SlowBody) Read(p []byte) (int, error) {
+	if len(b.head) > 0 {
+		n := copy(p, b.head)
+		b.head = b.head[n:]
+		return n, nil
+	}
+	<-b.tail
+	return 0, io.EOF
+}
+func (b *c02SlowBody) Close() error { return nil }
 
 type c02Result struct {
 	executed     []string // actions that were enabled and executed
@@ -152,7 +194,7 @@ type c02Result struct {
 
 // execC02 must be called inside a synctest bubble.
 func execC02(c c02Case) (res c02Result, err error) {
-	w := &c02World{pacerCh: make(chan c02PacerAns), gates: map[uint64]chan error{}}
+	w := &c02World{pacerCh: make(chan c02PacerAns), gates: map[uint64]chan error{}, tails: map[uint64]chan struct{}{}, errSalt: len(c.Script) + int(c.Workers)}
 	// a real *http.Transport (so that transport-level options apply) that hands the "c02" scheme to the harness
 	htr := &http.Transport{}
 	htr.RegisterProtocol("c02", w)
@@ -181,6 +223,7 @@ func execC02(c c02Case) (res c02Result, err error) {
 		pacerStopped, loopEnded   bool
 		closed                    bool
 		failedSeq                 = map[uint64]bool{}
+		headDone                  = map[uint64]bool{} // in transport, response head delivered, body tail outstanding
 		badSeq                    = map[uint64]bool{} // the targeter handed out a malformed target for these
 		erroredSeq                = map[uint64]bool{} // the transport failed for these
 		endedStop                 bool                // the attack has ended and (in today's code) called Stop itself
@@ -393,9 +436,12 @@ func execC02(c c02Case) (res c02Result, err error) {
 			if !stopRequested && !fn && M-(started-consumed) >= 2 {
 				e = append(e, "burst")
 			}
+			if !stopRequested && !fn {
+				e = append(e, "waitstop")
+			}
 		}
 		if len(inTransport) > 0 {
-			e = append(e, "complete", "completeerr")
+			e = append(e, "complete", "completeerr", "completehead")
 		}
 		e = append(e, "sleep")
 		if finished > 0 || (loopEnded && started == consumed) {
@@ -498,6 +544,50 @@ func execC02(c c02Case) (res c02Result, err error) {
 				return fail("the attack did not consult the pacer again after releasing %d hits back to back", b)
 			}
 			res.burst = true
+		case "waitstop":
+			// the pacer asks for a long wait; Stop arrives in the middle of it. Nothing may start before the wait is
+			// over (C04); then the loop hands out that one hit or ends
+			const wait = time.Hour
+			w.pacerCh <- c02PacerAns{wait, false}
+			grants++
+			synctest.Wait()
+			if n, err := absorbStarts(); err != nil {
+				return fail("%v", err)
+			} else if n != 0 {
+				return fail("C04: a hit started at once although the pacer asked for a wait of %s", wait)
+			}
+			if err := doStop(1); err != nil {
+				return err
+			}
+			synctest.Wait()
+			if n, err := absorbStarts(); err != nil {
+				return fail("%v", err)
+			} else if n != 0 {
+				return fail("C04: the pacer asked for a wait of %s, Stop was called during the wait and a hit started at once, before the wait was over", wait)
+			}
+			time.Sleep(wait + time.Second)
+			synctest.Wait()
+			n, err := absorbStarts()
+			if err != nil {
+				return fail("%v", err)
+			}
+			switch {
+			case n > 1:
+				return fail("%d hits started for one pacer release", n)
+			case n == 1 && !pacerWaiting():
+				return fail("the attack did not consult the pacer again after releasing a hit")
+			case n == 0 && busyBefore < M:
+				if pacerWaiting() {
+					return fail("C04: the pacer released a hit, no hit started, and the pacer is consulted again")
+				}
+				loopEnded = true
+			case n == 0:
+				// all workers busy: the release was abandoned because of the stop
+				if pacerWaiting() {
+					return fail("the pacer was consulted after Stop while the released hit had not started")
+				}
+				loopEnded = true
+			}
 		case "pstop":
 			w.pacerCh <- c02PacerAns{0, true}
 			grants++
@@ -530,6 +620,34 @@ func execC02(c c02Case) (res c02Result, err error) {
 			if n != 0 {
 				return fail("a hit started while nothing happened but time passing")
 			}
+		case "completehead":
+			// the response head and the first bytes of the body arrive, the rest of the body does not yet: the hit is
+			// still in flight (its result is due, and its worker free again, only when the body has been read to its end)
+			i := a.A % len(inTransport)
+			if i < 0 {
+				i += len(inTransport)
+			}
+			seq := inTransport[i]
+			if !headDone[seq] {
+				headDone[seq] = true
+				w.mu.Lock()
+				gate := w.gates[seq]
+				w.mu.Unlock()
+				gate <- errC02Head
+				synctest.Wait()
+				n, err := absorbStarts()
+				if err != nil {
+					return fail("%v", err)
+				}
+				if n != 0 {
+					return fail("C03: a hit started when the head of a response arrived")
+				}
+				if finished == 0 {
+					if r, _, got := recv(); got && r != nil {
+						return fail("C03: the result of hit %d is handed over although its response body has not been read to its end yet (the worker stays busy with the rest of the body after its result was consumed)", r.Seq)
+					}
+				}
+			}
 		case "complete", "completeerr":
 			i := a.A % len(inTransport)
 			if i < 0 {
@@ -539,7 +657,22 @@ func execC02(c c02Case) (res c02Result, err error) {
 			inTransport = append(inTransport[:i], inTransport[i+1:]...)
 			w.mu.Lock()
 			gate := w.gates[seq]
+			tail := w.tails[seq]
 			w.mu.Unlock()
+			if headDone[seq] {
+				// the body's tail arrives (a transport error is no longer possible: the exchange completes)
+				close(tail)
+				finished++
+				synctest.Wait()
+				n, err := absorbStarts()
+				if err != nil {
+					return fail("%v", err)
+				}
+				if n != 0 {
+					return fail("C03: a hit started when a response completed although its result was not consumed yet")
+				}
+				break
+			}
 			if a.K == "completeerr" {
 				erroredSeq[seq] = true
 				gate <- errors.New([]string{"EOF", "read tcp 10.0.0.1:1->10.0.0.2:80: read: connection reset by peer", "http: server closed idle connection", "harness: transport failure"}[int(seq)%4])
@@ -745,14 +878,20 @@ func runC02Bubble(t *testing.T, c c02Case) (res c02Result, err error) {
 	// clauses are tagged with the property they belong to; each property reports its own
 	// clauses and the untagged (shared) ones
 	if err != nil {
-		other := map[string]string{"C02": "]: C03: ", "C03": "]: C02: "}[c02Prop()]
-		if other != "" && strings.Contains(err.Error(), other) {
-			vh.Note("a history failed a clause of the sibling property (reported by its own check): %.200s", err.Error())
+		prop, tag := c02Prop(), ""
+		if m := c02Tag.FindStringSubmatch(err.Error()); m != nil {
+			tag = m[1]
+		}
+		// (untagged failures - the shared bookkeeping - are reported by C02 and C03)
+		if (tag != "" && tag != prop) || (tag == "" && prop != "C02" && prop != "C03") {
+			vh.Note("a history failed a clause of a sibling property (reported by its own check): %.200s", err.Error())
 			err = nil
 		}
 	}
 	return res, err
 }
+
+var c02Tag = regexp.MustCompile(`\]: (C0[2-5]): `)
 
 func runC02(c c02Case) error {
 	if vh.CurT == nil {
@@ -770,7 +909,7 @@ var c02Options = map[string]func(*vegeta.Attacker){
 
 var c02OptionNames = []string{"max-connections=1", "max-connections=2", "connections=1", "keepalive=false", "http2=false", "timeout=1h", "redirects=0", "max-body=0", "chunked"}
 
-var c02Kinds = []string{"tick", "tick", "tick", "tick", "burst", "bad", "complete", "complete", "completeerr", "consume", "consume", "consume", "stop", "pstop", "fail", "sleep"}
+var c02Kinds = []string{"tick", "tick", "tick", "tick", "burst", "bad", "completehead", "waitstop", "complete", "complete", "completeerr", "consume", "consume", "consume", "stop", "pstop", "fail", "sleep"}
 
 func c02Classify(c c02Case, res c02Result) (bool, []string) {
 	var labels []string
@@ -835,7 +974,7 @@ func TestC02Random(t *testing.T) {
 			}
 			a := c02Act{K: k}
 			switch k {
-			case "complete", "completeerr":
+			case "complete", "completeerr", "completehead":
 				a.A = rapid.IntRange(0, 63).Draw(t, fmt.Sprintf("a%d", i))
 			case "sleep":
 				a.A = rapid.SampledFrom([]int{1, 50, 1500, 10000, 120000}).Draw(t, fmt.Sprintf("a%d", i))
@@ -963,7 +1102,7 @@ func c02Prop() string {
 }
 
 func init() {
-	for _, p := range []string{"C02", "C03"} {
+	for _, p := range []string{"C02", "C03", "C04"} {
 		vh.RegisterReplay(p+".history", vh.Replayer(runC02))
 		vh.RegisterReplay(p+".exhaustive", vh.Replayer(runC02))
 	}
